@@ -757,7 +757,7 @@ int __real_nsync_sem_wait_with_cancel_ (void *w, struct timespec d, void *note) 
 int __wrap_nsync_sem_wait_with_cancel_ (void *w, struct timespec d, void *note) {
 	struct fiber *f = G->cur;
 	int r;
-	if (rt_sem_single_step && f && !f->noyield) {
+	if (rt_sem_single_step && rt_swc_region && f && !f->noyield) {
 		park (OP_REGION, note, 0, 0, 0, 0, "swc");
 		f->noyield++; f->in_swc = 1;
 		r = __real_nsync_sem_wait_with_cancel_ (w, d, note);
@@ -773,6 +773,7 @@ void __wrap_nsync_waiter_free_ (void *w) { struct fiber *f = G->cur; if (f) f->n
 void *rt_tls_waiter (int t) { return G->f[t].tls_waiter; }
 int rt_stack_owner (const void *p) { int i; for (i = 0; i < G->nf; i++) if ((const char *) p >= G->f[i].stk && (const char *) p < G->f[i].stk + STK_SIZE) return i; return -1; }
 int rt_exit_is_step = 0;
+int rt_swc_region = 1;
 
 /* ------------------------------------------------------------------ init / snapshot / reset */
 void rt_init (void) {
